@@ -19,6 +19,7 @@ import copy
 import io
 import json
 import os
+import sys
 
 import numpy as np
 
@@ -85,7 +86,11 @@ def run(ctx):
                 "input preservation and public array-taking functions; distinct = distinct "
                 "(class, q1, q2) / (function, input); non-trivial = q2 returns an array or q1 != q2")
     ctx.proofs()
-    common.gen_arith("C01")       # class tables (mutator names) for the query discovery
+    # class tables (mutator names) for the query discovery: C01's structural translator, written
+    # to a private file so that C01's own generated module is never touched from here
+    own_tables = os.path.join(common.VERIF, ".build", f"c06-StructC01-{os.getpid()}.lean")
+    common._run([sys.executable, os.path.join(common.VERIF, "translate", "gen_C01.py"), own_tables],
+                env=dict(os.environ, VERIF_REPO=common.REPO))
     eff = json.load(open(os.path.join(common.LEAN, "Pyunicorn", "Generated", "StructC06.json")))
     ctx.extra["effect_summaries"] = {
         "in_table": len(eff["table"]), "all_inplace_statements": len(eff["all"]),
@@ -96,9 +101,11 @@ def run(ctx):
     restore_preconditions(ctx, eff)
 
     reqs, impl = [], []
-    tables = json.load(open(os.path.join(common.LEAN, "Pyunicorn", "Generated",
-                                         "StructC01.json")))["tables"] \
-        if os.path.exists(os.path.join(common.LEAN, "Pyunicorn", "Generated", "StructC01.json")) else {}
+    tj = os.path.splitext(own_tables)[0] + ".json"
+    tables = json.load(open(tj))["tables"] if os.path.exists(tj) else {}
+    for f in (own_tables, tj):
+        if os.path.exists(f):
+            os.remove(f)
     rounds = [(cname, mk, r) for cname, mk in SPECS.items() for r in range(2 if quick else 8)]
     for cname, mk, rnd in rounds:
         spec = mk()
